@@ -327,3 +327,34 @@ def register(R):
     cgc.bounded = 'subscriber lists of length 0, 1 and 2 (loop unrolled); arbitrary subscribers'
     cgc.param_alternatives = {'transfer_future': [(f'{n}_subscribers', tf_with_subscribers(n)) for n in (0, 1, 2)],
                               'callback_type': [(t, Const(t)) for t in ('queued', 'progress', 'done')]}
+
+    # ------------------------------------------------------------------ legacy twins of verified helpers
+    L = 's3transfer'
+    tmv = R.contracts['s3transfer.manager:TransferManager._validate_all_known_args']
+    lv = R.contracts[f'{L}:S3Transfer._validate_all_known_args']
+    lv.props, lv.ensures, lv.raises, lv.loops = ('C15',), tmv.ensures, tmv.raises, tmv.loops
+    lv.params = dict(tmv.params)
+    for nm in ('remove_file', 'rename_file'):
+        src, dst = R.contracts[f'{UT}:OSUtils.{nm}'], R.contracts[f'{L}:OSUtils.{nm}']
+        dst.props, dst.checks, dst.raises = ('C06',), src.checks, src.raises
+
+    # S3Transfer._ranged_download: a MultipartDownloader on this transfer's client / config / osutil gets the same arguments
+    def rd_checks(c):
+        df = calls(c.trace, 'MultipartDownloader.download_file')
+        okk = len(df) == 1
+        out = {'one_ranged_download': (B(okk), ['C02', 'C15'])}
+        if okk:
+            env = df[0].extra['env']
+            d = c.new.obj(df[0].recv) if isinstance(df[0].recv, Ref) else None
+            out['same_arguments_and_collaborators'] = (B(
+                env['bucket'] is c.a_bucket and env['key'] is c.a_key and env['filename'] is c.a_filename and env['object_size'] is c.a_object_size
+                and env['extra_args'] is c.a_extra_args and env['callback'] is c.a_callback and d is not None
+                and d.fields.get('_client') is c.oldf('_client') and d.fields.get('_config') is c.oldf('_config') and d.fields.get('_os') is c.oldf('_osutil')), ['C15', 'C02'])
+        return out
+
+    from .b_legacy import EXTRA as LEXTRA
+    crd = R.contracts[f'{L}:S3Transfer._ranged_download']
+    crd.params = dict(bucket=ExtT('str'), key=ExtT('str'), filename=ExtT('str'), object_size=Int, extra_args=LEXTRA, callback=OptT(ExtT('legacy_cb')))
+    crd.props, crd.checks, crd.raises = ('C02', 'C15'), rd_checks, {'Exception': only_propagates}
+    R.mark_inline(f'{L}:MultipartDownloader.__init__')
+    R.builtin_models[f'{L}.ShutdownQueue'] = None
